@@ -1,6 +1,7 @@
 package harness
 
 import (
+	"bytes"
 	"fmt"
 	"sort"
 	"strings"
@@ -55,7 +56,7 @@ func genC09S(w *simrt.Choices, tier string, avoid map[string]bool) Case {
 		case 2, 3:
 			a.Kind = "rest"
 			for j, n := 0, 1+w.Choose(5); j < n; j++ {
-				a.Steps = append(a.Steps, []string{"list", "delete", "delete", "purge", "seen"}[w.Choose(5)])
+				a.Steps = append(a.Steps, []string{"list", "delete", "delete", "purge", "seen", "get", "source"}[w.Choose(7)])
 			}
 		default:
 			a.Kind = "pop3"
@@ -161,6 +162,36 @@ func runC09S(c *Ctx, cs Case) {
 							return
 						}
 						known, _ = decodeList(r.Body)
+					case "get", "source":
+						if len(known) == 0 {
+							r := web.request("GET", web.apiPath(a.Box), nil)
+							known, _ = decodeList(r.Body)
+						}
+						if len(known) == 0 {
+							continue
+						}
+						m := known[len(known)/2]
+						target := web.apiPath(a.Box, m.ID)
+						if stp == "source" {
+							target = web.apiPath(a.Box, m.ID, "source")
+						}
+						// the message is there (200, and it is that message) or has been removed
+						// by someone in the meantime (404): nothing else explains the answer
+						r := web.request("GET", target, nil)
+						switch {
+						case r.Panic != "":
+							c.Failf("rest-get-panics", "%s: GET %s -> %s", name, target, r)
+							return
+						case r.Code == 404:
+						case r.Code == 200:
+							if !bytes.Contains(r.Body, []byte(m.Subject)) {
+								c.Failf("rest-get-returns-another-message", "%s: GET %s (listed with subject %q) -> %s", name, target, m.Subject, r)
+								return
+							}
+						default:
+							c.Failf("rest-get-failed", "%s: GET %s -> %s (the message was listed a moment ago; it is either still there or gone)", name, target, r)
+							return
+						}
 					case "delete", "seen":
 						if len(known) == 0 {
 							r := web.request("GET", web.apiPath(a.Box), nil)
